@@ -77,7 +77,7 @@ Section RdSim.
     wf_val v = true /\ wf_cur c = true /\
     exists ts, toks_val v = tok :: ts /\ AT s (wbytes ts ++ tail phi c).
 
-  Notation AR := (act_rel (ops_rd cfg) (ops_doc cfg) R_rd cur_done is_root).
+  Notation AR := (act_rel (ops_rd cfg) (ops_doc cfg) R_rd cur_done is_root (fun (_ : hint) (a b : prim) => a = b)).
   Notation TR := (tok_rel R_rd RT_rd cur_done).
 
   Lemma rd_dispatch_scalar iskey h sc s : h <> HIgnored -> (forall id, h = HU16 -> sc <> SId id) ->
@@ -260,7 +260,7 @@ Section RdSim.
         [cbn [wf_cur]; rewrite Wfs, Wv; reflexivity|exists []; split; [reflexivity|exact HA2]].
   Qed.
 
-  Theorem rd_ops_sim : ops_sim (ops_rd cfg) (ops_doc cfg) R_rd RT_rd cur_done is_root.
+  Theorem rd_ops_sim : ops_sim (c_fops cfg) (ops_rd cfg) (ops_doc cfg) R_rd RT_rd cur_done is_root (fun (_ : hint) (a b : prim) => a = b).
   Proof.
     constructor.
     - intros. apply rd_H_disp. assumption.
@@ -268,6 +268,9 @@ Section RdSim.
     - intros. apply rd_H_key; assumption.
     - intros. apply rd_H_val. assumption.
     - reflexivity.
+    - intros; subst; reflexivity.
+    - intros; subst; reflexivity.
+    - intros; subst; reflexivity.
   Qed.
 
   Theorem reader_eq_spec_fuel fuel sched sh fs g :
@@ -275,7 +278,7 @@ Section RdSim.
     sim eq (walk_root (c_fops cfg) (ops_rd cfg) fuel sh (rdr_new cap sched (enc_doc fs g))) (spec_value cfg fuel sh fs g).
   Proof.
     intros W NF HF. unfold spec_value.
-    apply (walk_root_sim (c_fops cfg) (ops_rd cfg) (ops_doc cfg) R_rd RT_rd cur_done is_root rd_ops_sim fuel FRoot).
+    apply (walk_root_sim (c_fops cfg) (ops_rd cfg) (ops_doc cfg) R_rd RT_rd cur_done is_root (fun (_ : hint) (a b : prim) => a = b) rd_ops_sim fuel FRoot).
     - reflexivity.
     - unfold wf_doc in W. apply andb_prop in W as [W _]. apply andb_prop in W as [_ W].
       split; [cbn [wf_cur]; rewrite W; reflexivity|].
